@@ -20,7 +20,11 @@ pub fn main(args: &[String]) {
 	let mut lock_busy = false;
 	let mut _lock_file = None;
 	if let Ok(p) = std::env::var("ACMED_VERIF_LOCK") {
-		if let Ok(f) = std::fs::OpenOptions::new().create(true).write(true).open(&p) {
+		if let Ok(f) = std::fs::OpenOptions::new()
+			.create(true)
+			.write(true)
+			.open(&p)
+		{
 			// LOCK_EX | LOCK_NB
 			let rc = unsafe { flock(f.as_raw_fd(), 2 | 4) };
 			lock_busy = rc != 0;
